@@ -74,6 +74,9 @@ def ps_lattice(rng, tier: str) -> list[bytes]:
         for style in (b" " + sw, b" /" + sw[1:], b"/" + sw[1:]):
             for q in (b"", b'"', b"'"):
                 args.append(style + b" " + q + B64 + q)
+            args.append(style + b' "' + B64)           # an opening quote that is never closed
+            args.append(style + b" '" + B64 + b" ")
+            args.append(style + b" " + B64 + b'"')      # a closing quote only
         args.append(b" -nop " + sw + b" " + B64)
         args.append(b" -NoP -NonI " + sw.upper() + b" " + B64)
         args.append(b" " + sw[:2] + b"^" + sw[2:] + b" ZQBj^AGgAbwAgAGIAZQ^BlAA==")
